@@ -1,6 +1,7 @@
 mod fw;
 mod gen;
 mod props;
+mod scen;
 
 use fw::*;
 use std::collections::HashSet;
